@@ -91,7 +91,8 @@ def c05(A, ctx, tier):
 def c17(A, ctx, tier):
     history.r_hist(A, ctx, dict(exempt={"LBFGS"}, floor=12))
     control.r_retstop(A, ctx, dict(floor=6))
-    control.r_gradpoint(A, ctx, dict(floor=12))
+    control.r_gradpoint(A, ctx, dict(floor=9))
+    control.r_fresh(A, ctx, dict(exempt={k: v for k, v in EX01.items() if k != "FISTA"}, floor=12))
     control.r_lbfgs(A, ctx, {})
     history.r_niter(A, ctx, dict(floor=3))
     control.r_zero(A, ctx, dict(exempt={}, floor=7), rule="R-ZERO-BOUND", want="bound")
@@ -209,7 +210,7 @@ def c13(A, ctx, tier):
     misc.r_selfdiff(A, ctx, {})
     extents.r_fullarg(A, ctx, dict(floor=40))
     extents.r_likedtype(A, ctx, dict(floor=20))
-    misc.r_wscut(A, ctx, dict(floor=3))
+    misc.r_wscut(A, ctx, dict(floor=1))
     ctx.assume("accepted cells returning finite certified values is numerical (C01/C19)")
     return dict(explanation="every cell of the solver x datafit x penalty x storage x knob "
                 "matrix is classified statically: refused by validation, or accepted with "
@@ -317,7 +318,7 @@ def c08(A, ctx, tier):
     blockpen.r_proxfoc_block(A, ctx, dict(floor=4, select=lambda c: c.find_method("subdiff_distance") is None
                                           or c.find_method("subdiff_distance").cls.name == "BasePenalty"),
                              rule="R-PROX-SCORE", parts=("foc", "zero"))
-    extents.r_uninit(A, ctx, dict(floor=6))
+    extents.r_uninit(A, ctx, dict(floor=0))
     ctx.assume("that the regular subdifferential is the right notion at non-convex kinks is a "
                "mathematical fact, not decided")
     return dict(explanation="for every separable penalty and every order region of w_j the "
@@ -394,8 +395,8 @@ def c20(A, ctx, tier):
     kernels.r_accessor_eq(A, ctx, dict(floor=40), rule="R-ACCESSOR-BOUNDS")
     pairing.r_pair_eq(A, ctx, dict(floor=30), rule="R-PAIR-BOUNDS")
     extents.r_fullarg(A, ctx, dict(floor=40))
-    misc.r_wscut(A, ctx, dict(floor=3))
-    extents.r_uninit(A, ctx, dict(floor=6))
+    misc.r_wscut(A, ctx, dict(floor=1))
+    extents.r_uninit(A, ctx, dict(floor=0))
     misc.r_initialize(A, ctx, dict(floor=6))
     ctx.assume("value-dependent indices (entries of user-supplied grp_indices / CSC indices being "
                "in range) are an input contract and not decided")
